@@ -10,6 +10,7 @@ import (
 	"os"
 	"os/exec"
 	"strings"
+	"sync/atomic"
 	"time"
 )
 
@@ -24,6 +25,8 @@ const (
 func (r SatResult) String() string {
 	return [...]string{"unsat", "sat", "unknown"}[r]
 }
+
+var solverSeq int64
 
 type Solver struct {
 	bin     string
@@ -51,7 +54,7 @@ type Solver struct {
 func NewSolver(bin string, timeoutMS int) *Solver {
 	s := &Solver{bin: bin, timeoutMS: timeoutMS}
 	if p := os.Getenv("SYMGO_SMTLOG"); p != "" {
-		f, err := os.OpenFile(p, os.O_CREATE|os.O_WRONLY|os.O_APPEND, 0644)
+		f, err := os.OpenFile(fmt.Sprintf("%s.%d", p, atomic.AddInt64(&solverSeq, 1)), os.O_CREATE|os.O_WRONLY|os.O_APPEND, 0644)
 		if err == nil {
 			s.log = f
 		}
@@ -212,6 +215,12 @@ func (s *Solver) Check() SatResult {
 		short = 1500
 	}
 	r := s.checkOnce("(check-sat)", short, false)
+	if r != Unknown {
+		return r
+	}
+	// pure nlsat after purification / term-ite elimination (decides the
+	// min/max-heavy and division-heavy obligations)
+	r = s.checkOnce("(check-sat-using (then simplify purify-arith elim-term-ite solve-eqs qfnra-nlsat))", s.timeoutMS/2, false)
 	if r != Unknown {
 		return r
 	}
